@@ -14,7 +14,8 @@ META = {
             'api(bytes) == api(text); the Lean shebang model agrees with _find_shebang. non-trivial = input has a shebang or a '
             'non-UTF-8 encoding or non-LF newlines; distinct by input bytes',
     'assumptions': ['CPython decodes source bytes per PEP 263 / BOM (ast.parse of bytes); physical lines end at LF, CRLF or CR'],
-    'modelled_not_verified': ['decoding of the shebang bytes with the detected source encoding is outside the Lean model (bytes are modelled as code units)'],
+    'modelled_not_verified': ['which encoding a declared name stands for is modelled (PMV.Encoding.normalName, tables regenerated, compared with _source_encoding and '
+                              'tokenize._get_normal_name on a family of names); the codecs themselves and finding the declaration (the cookie regex) are not'],
 }
 
 BODIES = [
@@ -240,8 +241,59 @@ def shebang_correspondence(ctx):
     ctx.stage('shebang', cases=len(samples), diffs=diffs)
 
 
+def encoding_names():
+    """declared names around the ones the tokenizer normalises: the four names, cut short, continued by a separator, a digit or a
+    letter, in mixed case and with underscores, padded to and beyond the twelve characters that count; and real codec names"""
+    bases = ['utf-8', 'latin-1', 'iso-8859-1', 'iso-latin-1', 'utf8', 'utf-16', 'latin1', 'iso8859-1', 'iso-8859-15', 'iso-8859-10', 'cp1252',
+             'ascii', 'utf-8-sig', 'iso-latin-9', 'latin-9', 'latin-10', 'utf', 'iso', 'l1', 'mac-roman', 'utf-7']
+    conts = ['', '-', '_', '-unix', '-dos', '_mac', '0', '5', 'x', '-1', '.', '-unix-and-more', 'unix', '--', '-é'.encode('utf-8').decode('latin-1')]
+    names = set()
+    for b in bases:
+        for c in conts:
+            n = b + c
+            for v in (n, n.upper(), n.replace('-', '_'), n.title(), n[:-1], n[:12], n[:11], n + 'z' * (13 - len(n))):
+                if v and all(ch.isalnum() or ch in '-_.' for ch in v) and all(ord(ch) < 128 for ch in v):
+                    names.add(v)
+    return sorted(names)
+
+
+def encoding_correspondence(ctx):
+    """the Lean model of the encoding-name normalisation (PMV.Encoding.normalName; theorems T16.4) against _source_encoding on a
+    source that declares the name, and against CPython's own tokenize._get_normal_name (the specification)"""
+    import codecs
+    import tokenize
+    from python_minifier import _source_encoding
+    names = encoding_names()
+    answers = ctx.driver.ask(['encoding.normal ' + sexp.enc_cps([ord(c) for c in n]) for n in names])
+    diffs = spec_diffs = 0
+    for n, a in zip(names, answers):
+        ctx.count()
+        model = a[3:] if a.startswith('ok ') else a
+        ctx.bump('encoding_name_class', model)
+        spec = tokenize._get_normal_name(n)
+        spec_class = 'utf8' if spec == 'utf-8' and n != 'utf-8' or n == 'utf-8' else ('latin1' if spec == 'iso-8859-1' else 'other')
+        if model != spec_class:
+            spec_diffs += 1
+            ctx.add_broken('spec', 'encoding.normal:%s' % n, 'model=%s tokenize._get_normal_name=%r' % (model, spec))
+        for line in (b'# -*- coding: %s -*-\n' % n.encode('ascii'), b'#!/bin/x\n# vim: set fileencoding=%s :\n' % n.encode('ascii')):
+            impl = _source_encoding(line)
+            try:
+                codecs.lookup(n)
+                known = True
+            except LookupError:
+                known = False
+            expect = {'utf8': 'utf-8', 'latin1': 'iso-8859-1'}.get(model, n if known else 'utf-8')
+            if impl != expect:
+                diffs += 1
+                ctx.add_broken('correspondence', 'encoding.normal:%s' % n, 'model=%s (so %r) _source_encoding(%r)=%r' % (model, expect, line, impl))
+        if model != 'other':
+            ctx.mark_nontrivial('enc:' + n)
+    ctx.stage('encoding-names', names=len(names), diffs=diffs, spec_diffs=spec_diffs)
+
+
 def run(ctx):
     shebang_correspondence(ctx)
+    encoding_correspondence(ctx)
     matrix(ctx, BODIES[:ctx.scale(4, 8)])
     cli_matrix(ctx, BODIES[:ctx.scale(4, 8)])
     ctx.sample({'stage': 'matrix', 'example': repr(build(BODIES[1], FIRST_LINES[1], 'latin-1', 'latin-1', False, '\r\n')[1])})
